@@ -365,6 +365,31 @@ pub fn run(p: &Params, rep: &mut Report) {
         let surface = if flip % 5 == 4 { Surface::Wrap } else { Surface::Mgr };
         check_program(prog, surface, seed, thorough, rep, true);
     });
+    // simple patterns (concatenations of ranges and loops over ranges, two letters): ALL patterns of three items
+    // over a 12-item vocabulary, and sampled patterns of four to six items
+    {
+        let mut rng2 = p.rng(0x51);
+        let total = SIMPLE_ITEMS * SIMPLE_ITEMS * SIMPLE_ITEMS;
+        let mut i = p.shard as usize;
+        let mut n = 0u64;
+        while i < total {
+            let prog = simple_pattern_program(&[i % SIMPLE_ITEMS, (i / SIMPLE_ITEMS) % SIMPLE_ITEMS, i / (SIMPLE_ITEMS * SIMPLE_ITEMS)]);
+            let seed = rng2.next();
+            let surface = if n % 4 == 3 { Surface::Wrap } else { Surface::Mgr };
+            check_program(&prog, surface, seed, thorough, rep, true);
+            n += 1;
+            i += p.nshards as usize;
+        }
+        for _ in 0..p.size(150, 2500) {
+            let len = 4 + rng2.usize(3);
+            let items: Vec<usize> = (0..len).map(|_| rng2.usize(SIMPLE_ITEMS)).collect();
+            let prog = simple_pattern_program(&items);
+            let seed = rng2.next();
+            check_program(&prog, Surface::Mgr, seed, thorough, rep, true);
+            n += 1;
+        }
+        rep.count("simple_pattern_programs", n);
+    }
     let nprog = p.size(150, 1500);
     let mut rng = p.rng(1);
     let weights = [(Profile::Boundary, 25), (Profile::Loops, 25), (Profile::Boolean, 20), (Profile::Patterns, 15), (Profile::Mixed, 15)];
